@@ -81,3 +81,16 @@ Theorem C04_unbiased_finite_partial : forall (A : Type) (om : list A), om <> [] 
   forall (L : A -> R) n, (1 <= n)%nat -> EN A om n (fun t => sumR (map L t) / INR n) = E1 A om L.
 Proof. exact mean_unbiased. Qed.
 Print Assumptions C04_unbiased_finite_partial.
+
+(* "independent draws from the declared distributions": the anisotropy draw inside every evaluation is the first in-range
+   proposal mean + sigma*z (GAUSSIAN) / mean + sigma*mean*z (GAUSSIAN_SCALED) of the stream - with the SAME sigma on every re-draw
+   (the theorem of C09, re-proved here against this property's own copy of the source) *)
+Require Import C04.Draws.
+Theorem C04_declared_anisotropy_law : forall (scaled : bool) amin amax a sg (rg : nat -> R) n cu ds p0 v w',
+  rec_call n (ARGS scaled amin amax a sg) [] (World rg cu [] ds p0) = Ok (v, w') ->
+  holds (pc w') ->
+  holds p0 /\
+  exists k x, v = VDict [(VStr "a_ani", Draws.num x)] /\ amin <= x <= amax /\ x = prop_ scaled a sg (rg (cu + k)%nat) /\ cur w' = S (cu + k)
+              /\ forall j, (j < k)%nat -> ~ (amin <= prop_ scaled a sg (rg (cu + j)%nat) <= amax).
+Proof. exact draw_anisotropy_in_range. Qed.
+Print Assumptions C04_declared_anisotropy_law.
